@@ -172,7 +172,17 @@ def load(d, cfg, text, substitutes=True):
         dec = DECODER[d](g, **deckw)
         if d == "default" and cfg.get("via_loads"):
             return entry(decoder=dec, lexer_fn=counting_lexer(), **pkw)
-        return PARSER[d](g, dec, lexer_fn=counting_lexer(), **pkw).parse(text)
+        parser = PARSER[d](g, dec, lexer_fn=counting_lexer(), **pkw)
+        if cfg.get("kept"):
+            # the parser is kept for a while: other parsers are made and used (a plain
+            # loads(), parsers of the other classes) before it gets its text
+            pvl.loads("x = 1\nGROUP = g\n y = 2.5 <m>\nEND_GROUP\nEND\n")
+            for cls in (PVLParser, ODLParser, OmniParser):
+                try:
+                    cls().parse("z = (1.5, 2)\nEND\n")
+                except Exception:
+                    pass
+        return parser.parse(text)
     dec = DECODER[d](**deckw)                 # decoder with its own default grammar
     if wiring == "own":
         return PARSER[d](g, dec, lexer_fn=counting_lexer(), **pkw).parse(text)
@@ -371,7 +381,7 @@ def cases(draw, d):
     cfg = dict(real=draw(st.sampled_from(["float", "Decimal", "RecordingReal",
                                            "RecordingReal", "TextReal"])),
                quantity=draw(st.sampled_from([False, True, True, "picky"])),
-               containers=draw(st.booleans()),
+               containers=draw(st.booleans()), kept=draw(st.booleans()),
                via_loads=draw(st.booleans()),
                entry=draw(st.sampled_from(["str", "str", "bytes", "BytesIO",
                                            "StringIO"])),
